@@ -200,3 +200,15 @@ class DE(DX, DY):
 
 class DF(DY, DX):
     pass
+
+
+class LoudStr(str):
+    """a str subclass whose str() is not the key itself"""
+
+    def __str__(self):
+        return "<" + str.__str__(self).upper() + ">"
+
+
+class SColor(str, enum.Enum):
+    RED = "red"
+    BLUE = "blue"
